@@ -4,4 +4,4 @@
 From Coq Require Import Extraction ExtrOcamlBasic.
 From OCI Require Import Machine Checkers.
 Extraction Language OCaml.
-Extraction "model.ml" init step exec final_step W UMAX check_prop.
+Extraction "model.ml" init step exec final_step W UMAX check_prop merge_runs.
